@@ -384,7 +384,7 @@ func Header(name string, args ...any) {
 		eval.IncompatibleDSL()
 		return
 	}
-	if name == "" {
+	if name == "" || strings.HasPrefix(name, ":") {
 		eval.ReportError("header name cannot be empty")
 	}
 	eval.Execute(func() { Attribute(name, args...) }, h.AttributeExpr)
@@ -442,7 +442,7 @@ func Cookie(name string, args ...any) {
 		eval.IncompatibleDSL()
 		return
 	}
-	if name == "" {
+	if name == "" || strings.HasPrefix(name, ":") {
 		eval.ReportError("header name cannot be empty")
 	}
 	eval.Execute(func() { Attribute(name, args...) }, h.AttributeExpr)
@@ -700,7 +700,7 @@ func Param(name string, args ...any) {
 		eval.IncompatibleDSL()
 		return
 	}
-	if name == "" {
+	if name == "" || strings.HasPrefix(name, ":") {
 		eval.ReportError("parameter name cannot be empty")
 	}
 	eval.Execute(func() { Attribute(name, args...) }, p.AttributeExpr)
